@@ -214,7 +214,7 @@ class ModuleInfo:
 
 BUILTINS = {"len", "int", "float", "str", "list", "abs", "print", "setattr", "getattr", "exec", "compile", "super",
             "sorted", "isinstance", "type", "repr", "bool", "min", "max", "sum", "range", "dict", "set", "tuple",
-            "hash", "id", "open", "hasattr", "next", "iter", "globals", "locals", "vars", "input", "eval", "map", "round", "any", "all", "enumerate", "zip", "reversed",
+            "hash", "id", "open", "hasattr", "next", "iter", "filter", "frozenset", "divmod", "pow", "ord", "chr", "format", "bytes", "bytearray", "complex", "bin", "hex", "oct", "ascii", "callable", "slice", "issubclass", "globals", "locals", "vars", "input", "eval", "map", "round", "any", "all", "enumerate", "zip", "reversed",
             "NotImplementedError", "ValueError", "TypeError", "RuntimeError", "KeyError", "IndexError", "Exception"}
 
 
@@ -435,7 +435,7 @@ class Exec:
             else:
                 raise OutOfSubset("loop inside try")
 
-    SYNTHETIC = ("ParserException", "GeneratorException", "CompileException", "ExecException", "BlackException", "Propagated", "RecompileFailed", "Exception")
+    SYNTHETIC = ("TokenStreamRaised", "UserFunctionRaised", "ActionRaised", "ParserException", "GeneratorException", "CompileException", "ExecException", "BlackException", "Propagated", "RecompileFailed", "Exception")
 
     def route_exception(self, st, rest, p, exc):
         for h in st.handlers:
@@ -1119,12 +1119,19 @@ class Exec:
                 raise OutOfSubset("loop inside an inlined helper")
         return res
 
+    # builtins without a dedicated model that are pure functions of their arguments: uninterpreted (listed in evidence like any
+    # other unmodelled library call)
+    PURE_BUILTINS = ("round", "sorted", "sum", "any", "all", "tuple", "set", "frozenset", "dict", "reversed", "enumerate", "zip", "map", "filter", "range",
+                     "divmod", "pow", "repr", "bool", "ord", "chr", "format", "bytes", "bytearray", "complex", "bin", "hex", "oct", "ascii", "callable", "slice",
+                     "issubclass", "type")
     NONDETERMINISTIC_MODULES = ("random", "time", "os", "uuid", "secrets", "socket", "threading", "datetime", "locale", "sys", "platform", "tempfile", "getpass")
 
     def generic_external(self, q, pos, kw, p, node):
         """a library function without an assumed contract: modelled as an UNINTERPRETED function of its arguments that may
         raise (listed in evidence as `assumed pure`); functions of environment-dependent modules are havoc"""
-        if q.startswith("pyab_experiment.") or q.startswith("builtins."):
+        if q.startswith("builtins.") and q[9:] not in self.PURE_BUILTINS:
+            return None
+        if q.startswith("pyab_experiment."):
             return None
         try:
             args = [to_val(a) for a in pos] + [to_val(v) for _, v in sorted(kw.items()) if _ != "**"]
